@@ -131,16 +131,33 @@ def callSpl (c : Call) (st : St) : List String :=
     let elev := fromList 0.0 ((r.drop (4 + n)).take n)
     let eps : F := Float.ofBits 0x3cb0000000000000
     let linear := Fs.Spl.isLinear S Fs.Gen.splLinearForm eps nn
-    let single := st.g.recv 0 |>.length  -- unused; direction comes from the operator list
-    let _ := single
     let isSingle := match Fs.OpSeq.build (st.ops.map flagsOf) with
       | some acc => acc.outDir == .single
       | none => true
     if !linear && !isSingle then ["O spl err invalid_argument"]
     else
-      let (ero, nc, hang) := Fs.Spl.erode S linear Fs.Gen.splNewtonTwoSided n st.g kcoef dt m nn tol area elev
-      if hang then ["O hang"]
-      else [ line "erosion" (joinF ero.toList), line "ncorr" (toString nc) ]
+      -- setter calls on the fresh eroder (`set:n:<v>`, `set:m:<v>`): the setters ASSIGN first and
+      -- validate afterwards (set_slope_exp refuses a non-linear exponent on a multiple-direction
+      -- graph but keeps the value); after a refused call nothing is eroded
+      let sets := c.toks.filter (fun t => t.startsWith "set:")
+      let (mE, nE, outs, rej) := sets.zipIdx.foldl (fun (acc : F × F × List String × Bool) ti =>
+        let (mA, nA, o, rj) := acc
+        let (t, i) := ti
+        match t.splitOn ":" with
+        | [_, "n", v] =>
+          let v := hexF v
+          let lin := Fs.Spl.isLinear S Fs.Gen.splLinearForm eps v
+          if !lin && !isSingle then (mA, v, o ++ ["O splset" ++ toString i ++ " err invalid_argument"], true)
+          else (mA, v, o ++ ["O splset" ++ toString i ++ " ok"], rj)
+        | [_, "m", v] => (hexF v, nA, o ++ ["O splset" ++ toString i ++ " ok"], rj)
+        | _ => (mA, nA, o ++ ["O model-bad-setter"], rj)) (m, nn, [], false)
+      let effLine := if sets.isEmpty then [] else [line "spl_eff" (joinF [mE, nE])]
+      if rej then ["O spl_new 1"] ++ outs ++ effLine
+      else
+        let linearE := Fs.Spl.isLinear S Fs.Gen.splLinearForm eps nE
+        let (ero, nc, hang) := Fs.Spl.erode S linearE Fs.Gen.splNewtonTwoSided n st.g kcoef dt mE nE tol area elev
+        if hang then ["O hang"]
+        else (if sets.isEmpty then [] else ["O spl_new 1"]) ++ outs ++ effLine ++ [ line "erosion" (joinF ero.toList), line "ncorr" (toString nc) ]
   | _ => ["O model-bad-spl"]
 
 /-- `kernel <bfs|dfs|any> <threads> <min_block> <min_level>`: the harness kernel computes, along
